@@ -566,6 +566,11 @@ func contractMentions(c *Contract, prop string) bool {
 			return true
 		}
 	}
+	for _, cl := range c.CallSites {
+		if has(cl) {
+			return true
+		}
+	}
 	for _, l := range c.Loops {
 		for _, cl := range l.Invariants {
 			if has(cl) {
